@@ -1432,4 +1432,12 @@ example : Increasing [.record 1 ⟨7, 3⟩, .collect 0 1, .record 1 ⟨5, 2⟩, 
   refine ⟨?_, by decide⟩
   simp [Increasing, maxTs]
 
+/-! ## What the theorems assume about the source text (re-extracted on every run into `Gen/MetricsTemporal.lean`) -/
+
+/-- `AsyncMetricStorage::Record` computes `prev->Diff(new)` and `Set`s both maps; the last-value `Merge`/`Diff` keep
+    `this` exactly when it is strictly later; `Observe` is one loop over `callbacks_` with one invocation per value
+    type branch -/
+theorem gen_async_facts : Gen.asyncRecordIsDiffAndSet = true ∧ Gen.lastValueKeepsThisWhenStrictlyLater = true ∧
+    Gen.observeLoops = 1 ∧ Gen.observeInvocationSites = 2 ∧ Gen.longSumDiffSign = -1 := by decide
+
 end Otel.C17
